@@ -128,6 +128,21 @@ CHECKS = {
         "known_findings.json.",
         "DESIGN.md 4/C14",
     ),
+    "C19": (
+        "exploration",
+        "complete enumeration of (source expression, destination expression) pairs x context "
+        "lists x positions x 7 call sites; real split compared block-by-block with the original "
+        "entry by exact packet-set union and exact first-match equivalence",
+        "All pairs over 10 port expressions (none/eq/neq/range/gt, 1..3 operands, port 0, one "
+        "10-operand list) for one entry placed at every position of every context list of length "
+        "<=1 (quick) / <=2 (thorough), through Ace/AceGroup/Acl.ungroup_ports (flat, grouped by "
+        "prefix, explicit AceGroup before/after plain items) and Acl.platform='nxos': block at the "
+        "original position, other fields equal, one operand per side, union == original, ACL "
+        "decisions unchanged, unsplit entries keep their identity.",
+        "Trusted: readers + refsem equivalence. Known finding K02 (per-operand split of multi-"
+        "operand neq, pinned by the repository's tests) is matched by its exact wrong result.",
+        "DESIGN.md 4/C19",
+    ),
 }
 
 NOT_BUILT = "check not built yet (work in progress, see DESIGN.md section 8 build order)"
